@@ -458,7 +458,7 @@ def run_history(res, drv, rng, n):
         c = random_small(rng) if rng.random() < 0.8 else random_small(rng, max_q=5, max_ops=16)
         w = rng.random()
         d = c if w < 0.5 else (mutate_one(rng, c) if w < 0.8 else (order_swapped(rng, c) or c))
-        specs.append((c, d, rng.choice(["replace", "replace", "insert"]), rng.getrandbits(32)))
+        specs.append((c, d, rng.choice(["replace", "replace", "insert", "insert-mid"]), rng.getrandbits(32)))
     reps = drv.batch([f"c15.cmp a={enc(c)} b={enc(d)}" for c, d, _, _ in specs])
     import random as _random
     for (c, d, mode, sd), rep in zip(specs, reps):
